@@ -40,12 +40,12 @@ def h_ops(ctx, cfg):
     op = OPS[sym.pick(len(OPS), 'op')]
     two = op in ('merge', 'embed', 'forwards', 'discovery')
     if op == 'discovery':
-        callee = U.gen_sigs(1, cfg['K'])[0]
+        callee = U.gen_sigs(1, cfg['K'], allow_stars=cfg.get('allow_stars', True))[0]
         specs = [U.Spec((), (), True, True, ()), callee]
     elif two:
-        specs = U.gen_sigs(2, cfg['K'], cfg.get('total'))
+        specs = U.gen_sigs(2, cfg['K'], cfg.get('total'), allow_stars=cfg.get('allow_stars', True))
     else:
-        specs = U.gen_sigs(1, cfg['K'])
+        specs = U.gen_sigs(1, cfg['K'], allow_stars=cfg.get('allow_stars', True))
     ann_on = [[sym.flip('ann') for _ in s.names] for s in specs]
     has_ret = [sym.flip('ret') for _ in specs]
     Ts = [sym.sym_val('T') for _ in specs]
@@ -148,13 +148,16 @@ def h_ops(ctx, cfg):
 def plan(tier):
     if tier == 'quick':
         return [
-            dict(name='ops-K1', fn='h_ops', depth=9, budget_s=300, cfg=dict(K=1),
-                 bounds='10 operations x functions with <=1 named parameter each x annotation subsets x return annotation; eager and postponed twins; per-function globals',
+            dict(name='ops-K2-nostars', fn='h_ops', depth=9, budget_s=300, cfg=dict(K=2, total=2, allow_stars=False),
+                 bounds='10 operations x functions with <=2 named parameters (<=2 in total for binary operations), no star parameters (discovery: bare (*args, **kwargs) wrapper) x annotation subsets x return annotation; eager and postponed twins; per-function globals',
                  min_nontrivial=300, must_reach=['twin-evaluated-equal', 'source-value-from-defining-globals',
                                                  'annotate-verbatim', 'return-source-value-from-defining-globals']),
         ]
     return [
-        dict(name='ops-K2', fn='h_ops', depth=10, budget_s=3000, cfg=dict(K=2, total=3),
-             bounds='10 operations x functions with <=2 named parameters (<=3 in total for binary operations) x annotation subsets x return annotation',
+        dict(name='ops-K1-stars', fn='h_ops', depth=10, budget_s=1500, cfg=dict(K=1),
+             bounds='10 operations x functions with <=1 named parameter each, star parameters included x annotation subsets x return annotation',
+             min_nontrivial=300),
+        dict(name='ops-K2-total3-nostars', fn='h_ops', depth=10, budget_s=2400, cfg=dict(K=2, total=3, allow_stars=False),
+             bounds='10 operations x functions with <=2 named parameters (<=3 in total for binary operations), no star parameters',
              min_nontrivial=300),
     ]
